@@ -30,7 +30,23 @@ ENGINES.append({"name": "Conc", "path": "coq/theories/Conc + coq/gen/SharedWrite
      "kind_free_text": "Gallina model of N goroutines over read-only shared state and of the writer-preferring RWMutex; shared-write facts regenerated from source; harness/cmd/conccheck built with -race"})
 ENGINES.append({"name": "SvgPath", "path": "coq/theories/Svg", "serves_properties": ["C05", "C09"],
      "kind_free_text": "F1 Gallina model of the path-data separator logic (copyNumber/copyFlag) + SVG number grammar lexer as specification; harness/cmd/svgoracle (hooked separator correspondence, independent path interpreter, encoding/xml tree oracle)"})
+ENGINES.append({"name": "JsPrint", "path": "coq/theories/Js/Print*.v + coq/gen/JsTables_gen.v", "serves_properties": ["C01", "C09", "C16"],
+     "kind_free_text": "F2 Gallina model of the expression printer's parenthesis decisions, parametric in the precedence maps (regenerated from js/util.go); ECMA-262 expression grammar as derivation relation; harness/cmd/jsoracle (token correspondence, node vm oracle)"})
 CHECKS = {
+    "C01": {
+        "engine": "JsPrint", "design_ref": "DESIGN.md section 4 / C01",
+        "technique": "Coq proof (printed tokens derive the stripped tree in the ECMA-262 grammar, for all parser-shaped trees, parametric in the regenerated precedence maps) + token correspondence; node vm differential execution as search",
+        "text": ("Theorems (Props/C01.v): the precedence maps regenerated from js/util.go satisfy prec_tables_ok; for every expression tree a conforming parser "
+                 "can produce, at every context level, the printer's tokens derive in the ECMA-262 expression grammar (own level tables) the same tree with "
+                 "exactly the dropped parentheses removed; the output is a fixed point of the printer; the one deliberate re-association of && / || is "
+                 "value-preserving; without the repaired table entries the statement is refuted (K11). Tie: T-gen for the maps + the extracted printer "
+                 "must reproduce the token sequence of the real js.Minify on 6,000 random operator expressions per run. PARTIAL: all rewrites (conditional/"
+                 "boolean/nullish folding, statement merging, hoisting, dead code), literals, statements, classes etc. are decided by search only: 1,500 "
+                 "generated programs per quick run executed in node 20 (vm) before and after minification under several configurations, comparing host-call "
+                 "traces, final globals and completion. 12 defects found this way were repaired in /repo; 14 remain open (K01-K05, K07, K09, K14, K73-K78)."),
+        "note": ("Partial (printer precedence proved; behaviour of rewrites searched). Trusted: Coq kernel, translator, extraction, driver, PrintSpec.v as the "
+                 "grammar (unambiguity assumed), node 20 as reference engine, the generator's determinism hygiene."),
+    },
     "C05": {
         "engine": "SvgPath", "design_ref": "DESIGN.md section 4 / C05",
         "technique": "Coq proof (maximal-munch lexer inverts the separator state machine, all item sequences) + hooked correspondence; geometry and document structure by search (independent interpreters)",
